@@ -244,12 +244,14 @@ pub struct Item {
     pub userns: bool,
     /// the operation runs in a thread with a private descriptor table; the leader holds look-alikes of this in-root directory
     pub thread_decoy: Option<String>,
+    /// the operation starts with exactly this many free descriptor slots above the highest open one (RLIMIT_NOFILE set after the warm-up)
+    pub fd_slack: Option<i64>,
     pub nofile: Option<u64>,
     /// the caller has no descriptor 0 (a daemon that closed stdin): the library's first open returns 0
     pub no_stdin: bool,
 }
 
-fn item(scen: Scenario, plan: Plan, max_exec: u64) -> Item { Item { scen, plan, warm: true, mount_api: 0, max_exec, bundle: vec![], others: vec![], proc_opts: None, unpriv: false, userns: false, thread_decoy: None, nofile: None, no_stdin: false } }
+fn item(scen: Scenario, plan: Plan, max_exec: u64) -> Item { Item { scen, plan, warm: true, mount_api: 0, max_exec, bundle: vec![], others: vec![], proc_opts: None, unpriv: false, userns: false, thread_decoy: None, fd_slack: None, nofile: None, no_stdin: false } }
 
 /// Argument spellings for the input sweep of mutating operations (C03/C05/C11).
 pub fn sweep_paths() -> Vec<&'static str> {
@@ -366,7 +368,7 @@ pub fn items(prop: &str, tier: &str) -> Vec<Item> {
     let bundle = |name: &str, scens: Vec<Scenario>, size: usize, warm: bool, mount_api: u8, out: &mut Vec<Item>| {
         for (i, ch) in scens.chunks(size).enumerate() {
             let s0 = Scenario { name: format!("{}#{}", name, i), backend: ch[0].backend.clone(), op: ch[0].op.clone(), path: String::new() };
-            out.push(Item { scen: s0, plan: Plan::Trace, warm, mount_api, max_exec: 1, bundle: ch.to_vec(), others: vec![], proc_opts: None, unpriv: false, userns: false, thread_decoy: None, nofile: None, no_stdin: false });
+            out.push(Item { scen: s0, plan: Plan::Trace, warm, mount_api, max_exec: 1, bundle: ch.to_vec(), others: vec![], proc_opts: None, unpriv: false, userns: false, thread_decoy: None, fd_slack: None, nofile: None, no_stdin: false });
         }
     };
     match prop {
@@ -440,6 +442,16 @@ pub fn items(prop: &str, tier: &str) -> Vec<Item> {
             scens.extend(mutating_scenarios(th).into_iter().step_by(if th { 1 } else { 3 }));
             scens.extend(handle_scenarios(th).into_iter().step_by(if th { 1 } else { 3 }));
             for s in scens.clone() { v.push(item(s, Plan::Fault { bound: 1, cfg: fault_cfg(th) }, if th { 40_000 } else { 4_000 })); }
+            // a descriptor limit that bites somewhere in the middle of the operation (a real RLIMIT_NOFILE, so that descriptors
+            // the operation closes become available again - unlike the EXHAUST deviation, where every later creation fails)
+            for s in mutating_scenarios(th).into_iter().filter(|s| matches!(s.op.name.as_str(), "remove_all" | "mkdir_all")).chain(lookup_scenarios(false).into_iter().filter(|s| s.path == "a/b/c/d" || s.path == "a/b/lnk/f")) {
+                for k in if th { (0..10).collect::<Vec<i64>>() } else { vec![0, 1, 2, 3, 4] } {
+                    let mut it = item(s.clone(), Plan::Trace, 1);
+                    it.fd_slack = Some(k);
+                    it.scen.name = format!("fd-slack{}:{}", k, it.scen.name);
+                    v.push(it);
+                }
+            }
             // first-use initialisation of the internal procfs handle: cold lazies
             // (always including lookups through symlinks on the emulated backend: they read fs.protected_symlinks on first use)
             let mut cold: Vec<Scenario> = scens.iter().step_by(if th { 3 } else { 9 }).cloned().collect();
@@ -522,7 +534,7 @@ pub fn items(prop: &str, tier: &str) -> Vec<Item> {
                     }
                 }
                 let s0 = scs[0].clone();
-                v.push(Item { scen: s0, plan: Plan::Trace, warm: true, mount_api: *mapi, max_exec: 1, bundle: scs, others: vec![], proc_opts: opts.map(|s| s.to_string()), unpriv: *unpriv, userns: *who == 2, thread_decoy: None, nofile: Some(256), no_stdin: false });
+                v.push(Item { scen: s0, plan: Plan::Trace, warm: true, mount_api: *mapi, max_exec: 1, bundle: scs, others: vec![], proc_opts: opts.map(|s| s.to_string()), unpriv: *unpriv, userns: *who == 2, thread_decoy: None, fd_slack: None, nofile: Some(256), no_stdin: false });
             }
             // environment answers of the handle-construction protocol: every single (thorough: every pair of) deviating answer(s)
             let names: Vec<String> = ["fsopen", "fsconfig", "fsmount", "open_tree", "openat", "faccessat2"].iter().map(|s| s.to_string()).collect();
@@ -629,6 +641,7 @@ fn spec_for(it: &Item, scen: &Scenario) -> OneShot {
     if uid != 0 { os.setup.uid = uid; os.setup.gid = uid; os.setup.keep_dumpable = true; os.setup.umask = Some(0); }
     os.warmup.extend(handle_warmup(&scen.op));
     if it.no_stdin { os.warmup.push(Op::new("close_stdin")); }
+    if let Some(k) = it.fd_slack { os.warmup.push(Op::new("limit_fds").num(k)); }
     if it.userns { os.setup.userns = true; }
     if let Some(d) = &it.thread_decoy { os.setup.thread_decoy = Some(format!("{}|{}/{}", ROOT_IN, ROOT_IN, d)); }
     if it.unpriv { os.setup.uid = 1000; os.setup.gid = 1000; os.setup.drop_caps = true; os.setup.keep_dumpable = true; }
